@@ -37,10 +37,33 @@ def gen_cases(rng, tier):
         probes = [[0, None], [0, ["int", 2]], [len(mech["states"]) - 1, rng.choice([None, ["int", 1], ["frac", 1, 4]])],
                   [rng.randrange(len(mech["states"])), ["int", 0]]]
         calls = [[0, lim]] + probes
+        bad_source = rng.random() < 0.15
+        if bad_source:
+            # the aborted evaluation fails while ENUMERATING a source (a selection beyond the pool), at top level
+            # or inside a nested evaluation; the exception reaches the caller and nothing is left behind
+            bad = {"srcs": [{"pw": [[[gens.q(1), 1], [gens.q(2), 1]]] * 2, "which": [{"i": rng.choice([2, 5, -3])}]}],
+                   "npos": rng.randint(0, 1), "sentinel": [[gens.q(300), 1]], "table": []}
+            mech["states"].append(bad)
+            bi = len(mech["states"]) - 1
+            if rng.random() < 0.5 and mech["states"][0]["table"]:
+                mech["states"][0]["table"][0][1] = ["call", bi, None]      # nested: reached from state 0's callback
+                calls = [[0, ["int", 2]]] + probes
+            else:
+                calls = [[bi, lim]] + probes
+        if rng.random() < 0.25 and not bad_source:
+            # the same callback used again with another sentinel: limit 0 hands back the sentinel of THAT call
+            import copy
+            clone = copy.deepcopy(mech["states"][0])
+            clone["sentinel"] = rng.choice([[[gens.q(400), 1]], [[gens.q(400), 2], [gens.q(401), 2]]])
+            clone["cb_of"] = 0
+            mech["states"].append(clone)
+            ci = len(mech["states"]) - 1
+            calls = calls[:1] + [[ci, ["int", 0]], [0, ["int", 0]], [ci, rng.choice([None, ["int", 1], ["int", 2]])]] + calls[1:]
         if ec.oracle_calls(mech, [tuple(c) for c in calls], budget=4000) is None:
             continue
         cases.append({"kind": "fault", "mech": mech, "calls": calls, "pick": rng.randint(0, 10 ** 6),
-                      "with_fault": rng.random() < 0.85, "base_exception": False, "exc_kind": rng.choice(ec.FAULT_KINDS)})
+                      "with_fault": (rng.random() < 0.85) and not bad_source, "base_exception": False, "exc_kind": rng.choice(ec.FAULT_KINDS),
+                      "foreach": rng.random() < 0.4})
     return cases
 
 
@@ -49,10 +72,10 @@ def impl_run(case):
     from dyce.evaluation import explode
     calls = [tuple(c) for c in case["calls"]]
     # phase 1 (separate closure state, same interpreter): count the invocations of the first call
-    _, ninv = ec.run_mech_impl(case["mech"], calls[:1])
+    _, ninv = ec.run_mech_impl(case["mech"], calls[:1], use_foreach=case.get("foreach", False))
     fault = (case["pick"] % ninv) if (case["with_fault"] and ninv > 0) else None
     answers, total_inv = ec.run_mech_impl(case["mech"], calls, fault=fault, base_exception=case.get("base_exception", False),
-                                              exc_kind=case.get("exc_kind"))
+                                              exc_kind=case.get("exc_kind"), use_foreach=case.get("foreach", False))
     ex = explode(H({1: 1, 2: 1}), limit=2)
     sub = H(4).substitute(lambda h, o: h if o == 4 else o, lambda h, o: h)
     from common import hist_items
